@@ -383,17 +383,24 @@ def run(ctx):
     r = ctx.tlc('MichText', CFG % (', '.join('"%s"' % x for x in leaf), ', '.join('"%s"' % x for x in ins), 1 if ctx.quick else 2), dump=True, timeout=2400, workers=8, coverage=False)
     ctx.require_no_violation(r, 'MichText')
     # vacuity is checked on the dump itself (TLC's -coverage doubles the run time): both actions taken for every expression
-    pending, n, pcs = [], 0, {}
+    pending, pending2, n, pcs = [], [], 0, {}
+    ctx._again_cap = 20000      # every case takes part in the second pass (the pass is cheap here)
+    states = []
     for st in iter_dump(r.dump):
         pcs[st['pc']] = pcs.get(st['pc'], 0) + 1
-        if st['pc'] != 'done':
-            continue
+        if st['pc'] == 'done':
+            states.append(st)
+    # small expressions first: a leaf is printed on its own (as a root) before it is printed as an argument of something else,
+    # and the second pass below prints everything again in the opposite order
+    states.sort(key=lambda st: (len(st['toks']), repr(st['e'])))
+    for st in states:
         node, mtoks = st['e'], st['toks']
         n += 1
         framed = ('LP',) in [tuple(t) for t in mtoks]
         ok = True
         for inline in (True, False):
             ok = check_case(ctx, node, mtoks, inline, pending) and ok
+            ctx.again(check_case, ctx, node, mtoks, inline, pending2)
             ctx.count((node, inline), nontrivial=framed)
         ctx.replayed += 1
         if ok and framed and len(mtoks) > 12:
@@ -404,6 +411,12 @@ def run(ctx):
     verdicts = judge(ctx, pending + scripts, 'MichTextTrace')
     settle(ctx, pending, verdicts)
     settle_scripts(ctx, scripts, verdicts)
+    # the same expressions once more in reverse order: printing is a function of the expression, not of what was printed before
+    ctx.second_pass()
+    if pending2:
+        for k, c in enumerate(pending2):
+            c['id'] = 'again-%d' % k
+        settle(ctx, pending2, judge(ctx, pending2, 'MichTextTrace_again'))
     ctx.exhaustive = True
 
 
